@@ -56,6 +56,11 @@ def main(tier: str) -> int:
     graph_stats = {}
     graph_faults = 0
     for u, (edges, faults_at, gr) in zip(graph_unis, graphs):
+        try:
+            _probe = rg.project(rg.make_decoder({'r': 'opt', 'name': '', 'pt': 1, 'gen': False, 'star': False, 'mn': 8, 'mp': 0, 'md': 0, 'lt': 0, 'ver': 1}), (1, 0, 0))
+        except AttributeError as ex:
+            run.model_drift(f'state projection of Decoder unavailable ({ex}): reader state-graph comparison skipped')
+            break
         st = rg.walk(u, edges, faults_at,
                      on_violation=lambda clause, what, rp, u=u: (run.violation({"clause": clause, "binding": "reader-state-graph", "universe": u,
                                                                                 "class": rp.get("class", "")}, what, rp)
